@@ -46,6 +46,8 @@ pub struct RLog {
     pub subs: u64,
     /// total octets handed out through fixed-width reads / bytes()
     pub octets_read: u64,
+    /// reader calls made while a `T` handed out earlier (a `WipingBuf` lease) was still alive
+    pub calls_with_live_lease: u64,
 }
 
 impl RLog {
@@ -91,6 +93,9 @@ impl<'a, T> ContractReader<'a, T> {
     fn note(&self, op: Op) {
         let mut l = self.log.borrow_mut();
         l.calls += 1;
+        if LIVE_LEASES.with(|c| c.get()) > 0 {
+            l.calls_with_live_lease += 1;
+        }
         l.by_op[op as usize] += 1;
         if l.calls > l.budget {
             drop(l);
@@ -196,6 +201,9 @@ impl SegmentedReader {
     fn note(&self, op: Op) {
         let mut l = self.log.borrow_mut();
         l.calls += 1;
+        if LIVE_LEASES.with(|c| c.get()) > 0 {
+            l.calls_with_live_lease += 1;
+        }
         l.by_op[op as usize] += 1;
         if l.calls > l.budget {
             drop(l);
@@ -515,6 +523,14 @@ impl<'a> Reader<Vec<u8>> for ReentrantReader<'a> {
 /// of the lease.
 pub struct WipingBuf(pub Vec<u8>);
 
+thread_local! {
+    /// `WipingBuf` leases alive on this thread (no destructor: a plain counter)
+    static LIVE_LEASES: std::cell::Cell<usize> = const { std::cell::Cell::new(0) };
+}
+pub fn reset_live_leases() {
+    LIVE_LEASES.with(|c| c.set(0));
+}
+
 impl std::borrow::Borrow<[u8]> for WipingBuf {
     fn borrow(&self) -> &[u8] {
         &self.0
@@ -528,11 +544,13 @@ impl Drop for WipingBuf {
         }
         // keep the wipe from being optimised away
         std::hint::black_box(&self.0);
+        let _ = LIVE_LEASES.try_with(|c| c.set(c.get().saturating_sub(1)));
     }
 }
 
 impl<'a> FromOctets<'a> for WipingBuf {
     fn from_octets(s: &'a [u8]) -> Self {
+        let _ = LIVE_LEASES.try_with(|c| c.set(c.get() + 1));
         WipingBuf(s.to_vec())
     }
 }
@@ -655,5 +673,81 @@ impl Reader<Vec<u8>> for LiveQueueReader {
     fn skip_bytes(&mut self, length: usize) {
         self.arrive();
         self.pos = (self.pos + length).min(self.vis.get());
+    }
+}
+
+
+/// A conforming owning reader on a slow transport: every `subreader()` / `bytes()` call (also on
+/// its sub-readers)
+/// takes `delay` of wall-clock time before it is served. The octets and every answer are the same
+/// as from a fast reader; only time passes. Results must not depend on it.
+pub struct SlowReader {
+    data: Rc<Vec<u8>>,
+    pos: usize,
+    end: usize,
+    delay: std::time::Duration,
+}
+
+impl SlowReader {
+    pub fn new(data: &[u8], delay: std::time::Duration) -> Self {
+        SlowReader { data: Rc::new(data.to_vec()), pos: 0, end: data.len(), delay }
+    }
+    pub fn remaining(&self) -> usize {
+        self.end - self.pos
+    }
+    fn wait(&self) {
+        if !self.delay.is_zero() {
+            std::thread::sleep(self.delay);
+        }
+    }
+    fn take<const N: usize>(&mut self) -> [u8; N] {
+        let mut out = [0u8; N];
+        for (k, o) in out.iter_mut().enumerate() {
+            if self.pos + k < self.end {
+                *o = self.data[self.pos + k];
+            }
+        }
+        self.pos = (self.pos + N).min(self.end);
+        out
+    }
+}
+
+impl Reader<Vec<u8>> for SlowReader {
+    fn is_empty(&self) -> bool {
+        self.pos == self.end
+    }
+    fn len(&self) -> usize {
+        self.end - self.pos
+    }
+    fn subreader(&mut self, length: usize) -> Self {
+        self.wait();
+        let k = length.min(self.end - self.pos);
+        let s = SlowReader { data: self.data.clone(), pos: self.pos, end: self.pos + k, delay: self.delay };
+        self.pos += k;
+        s
+    }
+    fn bytes(&mut self, length: usize) -> Option<Vec<u8>> {
+        self.wait();
+        if length > self.end - self.pos {
+            return None;
+        }
+        let v = self.data[self.pos..self.pos + length].to_vec();
+        self.pos += length;
+        Some(v)
+    }
+    unsafe fn read_u8_unchecked(&mut self) -> u8 {
+        self.take::<1>()[0]
+    }
+    unsafe fn read_u16_be_unchecked(&mut self) -> u16 {
+        u16::from_be_bytes(self.take::<2>())
+    }
+    unsafe fn read_u32_be_unchecked(&mut self) -> u32 {
+        u32::from_be_bytes(self.take::<4>())
+    }
+    unsafe fn read_u64_be_unchecked(&mut self) -> u64 {
+        u64::from_be_bytes(self.take::<8>())
+    }
+    fn skip_bytes(&mut self, length: usize) {
+        self.pos = (self.pos + length).min(self.end);
     }
 }
